@@ -60,7 +60,7 @@ def _validate(path):
     r = tlc.run("MsgDataTrace", "SPECIFICATION Spec\nCHECK_DEADLOCK FALSE\n",
                 env={"TRACE_FILE": path, "JAVA_TOOL_OPTIONS": "-Xmx3g"}, workers=1, timeout=3000)
     return {"rc": r.rc, "error": r.error if r.rc != 0 else None, "prints": r.prints,
-            "generated": r.generated, "distinct": r.distinct, "out": r.out[-1500:]}
+            "generated": r.generated, "distinct": r.distinct, "out": r.out}
 
 
 def _show(b, limit=400):
@@ -164,20 +164,30 @@ def fn(ck, a):
             raise RuntimeError(f"TLC failed on MsgDataMC (laws): {r.error or r.out[-800:]}")
         ck.cov["exhaustive"] = all(x["complete"] for x in ck.cov["tlc_runs"])
 
-        viols, done, unjudged = [], 0, []
+        viols, done, unjudged, nested = [], 0, [], 0
         for p, vr in zip(parts, vres):
             if vr["rc"] != 0:
-                raise RuntimeError("TLC validation failed: " + (vr["error"] or vr["out"])[:1500])
+                raise RuntimeError("TLC validation failed: " + (vr["error"] or vr["out"][-1500:])[:1500])
             ck.cov["states"] += vr["distinct"]
             ck.cov["transitions"] += vr["generated"]
             for pr in vr["prints"]:
                 if pr and pr[0] == "VIOL":
-                    viols.append((p[pr[1] - 1], pr[2], pr[3]))
+                    rec, where = p[pr[1] - 1], str(pr[3])
+                    if where.isdigit():     # index of a section (of the COPY source for CopyIsIdentical)
+                        k = int(where) - 1
+                        secs = p[pr[1] - 2]["secs"] if pr[2] == "C16.CopyIsIdentical" else rec["secs"]
+                        where = secs[k]["name"] if 0 <= k < len(secs) else where
+                    viols.append((rec, pr[2], where))
                 elif pr and pr[0] == "UNJUDGED":
                     unjudged.append(p[pr[1] - 1])
+                elif pr and pr[0] == "INFO":
+                    nested += 1
                 elif pr and pr[0] == "DONE":
                     done += 1
         nrec = sum(len(p) for p in parts)
+        nviol = sum(vr["out"].count('"VIOL"') for vr in vres)
+        if nviol != len(viols):
+            raise RuntimeError(f"{nviol} VIOL tuples printed by TLC, {len(viols)} parsed")
         if done != nrec:
             raise RuntimeError(f"validation incomplete: {done} of {nrec} records consumed")
 
@@ -197,6 +207,7 @@ def fn(ck, a):
                                              if any(e["a"]["big"] for e in rec["secs"]))
         ck.cov["sections_refused"] = sum(len(rec["refused"]) for p in parts for rec in p)
         ck.cov["unjudged_records"] = len(unjudged)
+        ck.cov["observation_nested_rfc822_header_text_is_not_part"] = nested   # outside the property statement
         ck.cov["partials_not_returned"] = sum(1 for p in parts for rec in p for e in rec["secs"]
                                               for q in e["parts"] if not q["present"])
         ref_app = [x for x in refused if x["how"] == "append"]
@@ -226,7 +237,7 @@ def fn(ck, a):
                 else ("RFC822*" if where.startswith("RFC822") else "BODY[section]")
             grouped.setdefault((clause, act), []).append((rec, where))
         for (clause, cls), lst in sorted(grouped.items()):
-            lst.sort(key=lambda x: (x[0]["sent"]["n"], x[0]["tag"], x[0]["how"]))
+            lst.sort(key=lambda x: (x[0]["sent"]["n"], x[0]["tag"], x[0]["how"], x[1]))
             rec, where = lst[0]
             sec = {e["name"]: e for e in rec["secs"]}
             det = {"where": where, "how": rec["how"], "case": rec["label"], "RFC822.SIZE": rec["rfc_a"]["size"],
